@@ -71,6 +71,9 @@ func c16Gen(r *rand.Rand, tier string) []Case {
 	out = append(out, Case{"freset", "fork # k=1 m=delegate val=1 amt=3000000000000000000", "fork # k=2 m=delegate val=0 amt=1000000000000000000", "query # k=1 val=1",
 		"jail # val=1", "query # k=1 val=1", "query # k=2 val=0", "fork # k=1 m=undelegate val=1 amt=staked/2", "adv # dt=30000", "query # k=1 val=1",
 		"fork # k=1 m=redelegate val=1 dst=0 amt=staked/2", "query # k=1 val=1"})
+	// fixed case: rewards earned at two validators, one of them leaves the bonded set, then everything is claimed at once
+	out = append(out, Case{"freset", "fork # k=1 m=delegate val=1 amt=3000000000000000000", "fork # k=1 m=delegate val=0 amt=1000000000000000000", "adv # dt=30000", "adv # dt=30000",
+		"fork # k=1 m=claimRewards", "adv # dt=30000", "jail # val=1", "fork # k=1 m=claimRewards", "fork # k=2 m=claimRewards"})
 	for i := 0; i < n; i++ {
 		c := Case{"freset"}
 		for k := 1; k <= 3; k++ {
@@ -105,7 +108,11 @@ func c16Gen(r *rand.Rand, tier string) []Case {
 			case x < 10:
 				c = append(c, fmt.Sprintf("fork # k=%d m=setWithdrawAddress w=%s", k, pick(r, []string{"self", "other", "module:distribution", "module:fee_collector", "fresh", "precompile"})))
 			case x < 12:
-				c = append(c, fmt.Sprintf("fork # k=%d m=withdrawDelegatorRewards val=%s", k, val))
+				if r.Intn(3) == 0 {
+					c = append(c, fmt.Sprintf("fork # k=%d m=claimRewards", k))
+				} else {
+					c = append(c, fmt.Sprintf("fork # k=%d m=withdrawDelegatorRewards val=%s", k, val))
+				}
 			default:
 				c = append(c, fmt.Sprintf("adv # dt=%d", 1+r.Intn(100000)))
 			}
@@ -301,6 +308,19 @@ func c16Exec(c Case) (outs []string, fails []Failure, tags []string) {
 					runNative = func(ctx sdk.Context) error {
 						_, e := distrSrv.SetWithdrawAddress(sdk.WrapSDKContext(ctx), msg)
 						return e
+					}
+				case "claimRewards":
+					// no native message of its own: its effect must be that of one MsgWithdrawDelegatorReward per validator the
+					// account delegates to (bonded or not), in the order the staking keeper lists them
+					to = dst
+					in, err = dpc.ABI.Pack(m, eth, uint32(10))
+					runNative = func(ctx sdk.Context) error {
+						for _, v := range app.StakingKeeper.GetDelegatorValidators(ctx, acc, 10) {
+							if _, e := distrSrv.WithdrawDelegatorReward(sdk.WrapSDKContext(ctx), &distrtypes.MsgWithdrawDelegatorReward{DelegatorAddress: acc.String(), ValidatorAddress: v.OperatorAddress}); e != nil {
+								return e
+							}
+						}
+						return nil
 					}
 				case "withdrawDelegatorRewards":
 					msg := &distrtypes.MsgWithdrawDelegatorReward{DelegatorAddress: acc.String(), ValidatorAddress: va}
